@@ -21,9 +21,11 @@ ASSUME = [
     "compare_type), server default added/removed/changed to one that differs after the documented normalisation (needs "
     "compare_server_default), index / named unique constraint added, removed, changed (same name and kind, other columns or unique "
     "flag), foreign key added (new signature) / removed (its signature disappears)",
+    "generated (Computed) columns: a nullability change is only claimed when the changed model states nullable explicitly (the "
+    "mutation does); a change of / to / from a Computed default is documented as not detected and is not in the catalogue",
     "server defaults of A and m(A) in the class dflt_ok; outside it 'nothing unrelated' is refuted (C07_nothing_unrelated_refuted)",
 ]
-RULE = ("ALL ordered pairs of catalogue types of different families as a type change on one indexed column, then seeded random base schemas (1-4 tables as for C06) x every kind of the 12-kind mutation catalogue that can be instantiated on "
+RULE = ("ALL ordered pairs of catalogue types of different families as a type change on one indexed column, then seeded random base schemas (every third with generated columns, nullable explicit or unset; default changes include near-misses: other letter case, a surrounding blank, a trailing character) (1-4 tables as for C06) x every kind of the 12-kind mutation catalogue that can be instantiated on "
         "the base (random instance per kind); each case compares db(A) with m(A) under the 4 compare_type x compare_server_default "
         "settings. every case is non-trivial (a real change is applied); distinct by the encoded (A, m)")
 EXHAUSTIVE = {"quick": False, "thorough": False}
@@ -40,8 +42,10 @@ LEVEL_NOTE = ("Partial: closed type catalogue, SQLite only, server defaults of c
 
 
 def _cases(rnd, nbase):
-    for _ in range(nbase):
+    for k in range(nbase):
         A = S.gen_schema(rnd)
+        if k % 3 == 0:
+            S.add_computed(rnd, A, 0.7)        # generated columns (nullable explicit or left unset)
         for kind in S.MUT_KINDS:
             m = S.gen_mutation(rnd, A, kind)
             if m is not None:
